@@ -57,7 +57,7 @@ Payloads == {<<>>, <<0>>, <<255>>, <<251,255>>, <<251,255,254>>, <<0,16,131,16,8
 EnumVals == {<<0,0,0,0,0,0,0,0>>, <<1,0,0,0,0,0,0,0>>, <<2,0,0,0,0,0,0,0>>, <<255,255,255,255,255,255,255,255>>, <<3,0,0,0,0,0,0,0>>,
              <<254,255,255,255,255,255,255,255>>, <<255,255,255,127,0,0,0,0>>, <<0,0,0,128,255,255,255,255>>}
 EncCase(k, ctx, v) == [op |-> "enc", k |-> k, ctx |-> ctx, v |-> v]
-EmitOnce == s # <<>> \/
+EmitOnce == s # <<>> \/ s' # <<65>> \/
   /\ \A lit \in EnumLits : \A ctx \in {"f", "r", "m"} : LET c == NumCase("enum", ctx, lit) IN PrintT("@@" \o ToJson(c @@ [exp |-> Expect(c)]))
   /\ \A v \in Payloads : \A ctx \in {"w", "f"} : LET c == EncCase("bytes", ctx, v) IN PrintT("@@" \o ToJson(c @@ [exp |-> Expect(c)]))
   /\ \A v \in EnumVals : LET c == EncCase("enum", "f", v) IN PrintT("@@" \o ToJson(c @@ [exp |-> Expect(c)]))
